@@ -169,6 +169,27 @@ func dense(r *runner) {
 	tcase2 := Case{Agg: "table", Delim: strconv.QuoteToASCII(","), Full: true}
 	denseEnum(r, "table-comma", mk3(",", keys[:2], subs, redIncs), c.N(3, 4), tcase2, trimPrep)
 
+	// interleaved: samples, Trim, more samples (also on the row / column that was just trimmed away), more trims ...
+	// compared in full after every element; what `rare spark` does on every refresh.
+	var isyms []string
+	for _, col := range []string{"", "a"} {
+		for _, row := range []string{"", "x"} {
+			isyms = append(isyms, col+nul+row, col+nul+row+nul+"-2")
+		}
+	}
+	for _, t := range []string{"rowis:", "rowis:x", "colis:", "colis:a", "neg", "pos", "all", "cell:1", "row:1", "col:1"} {
+		isyms = append(isyms, trimMark+t)
+	}
+	oneTrim := make([]string, 1)
+	trimPrep1 := func(cs *Case, h int) {
+		oneTrim[0] = denseTrims[h%len(denseTrims)]
+		cs.Trim = oneTrim
+	}
+	denseEnum(r, "table-interleaved", isyms, c.N(4, 5), tcase, trimPrep1)
+	ssyms := []string{"a" + nul + "x", "a" + nul + "y", "b" + nul + "x", "a" + nul + "x" + nul + "-1", "b",
+		trimMark + "rowis:x", trimMark + "colis:a", trimMark + "pos", trimMark + "cell:2"}
+	denseEnum(r, "table-interleaved-long", ssyms, c.N(5, 7), tcase, nil)
+
 	// numerical
 	nsyms := []string{"0", "1", "2", "-1.5", "1e3", "x"}
 	qs := []float64{0, 0.25, 0.5, 0.75, 0.9, 1.0}
@@ -411,29 +432,73 @@ func genTable(rr *run.Rand, c *run.Ctx) (*Case, []string) {
 	if n > 3000 {
 		n = 3000
 	}
-	forbid := delim
+	forbid := delim + "\x1e"
 	if cs.Direct {
-		forbid = directSep
+		forbid = directSep + "\x1e"
 	}
 	cols := alphabet(rr, pickSize(rr, []int{1, 2, 3, 8, 60}), forbid)
 	rows := alphabet(rr, pickSize(rr, []int{1, 2, 3, 20, 300, 2000}), forbid)
 	cs.Full = n <= 100 && rr.Intn(3) == 0
-	samples := make([]string, n)
-	for i := range samples {
+	// half of the cases interleave Trim calls with the samples (then no re-ordering is compared)
+	trimRounds := 0
+	if rr.Intn(2) == 0 && n >= 2 {
+		trimRounds = rr.Range(1, 4)
+		if n > 300 && rr.Intn(2) == 0 {
+			trimRounds = rr.Range(4, 12)
+		}
+		cs.Perms = 0
+	}
+	samples := make([]string, 0, n+trimRounds)
+	prevCol, prevRow := "", ""
+	forceCol, forceRow := false, false
+	for i := 0; i < n; i++ {
+		if trimRounds > 0 && i > 0 && rr.Intn(n) < trimRounds {
+			spec := ""
+			switch x := rr.Intn(20); {
+			case x < 8: // the row just sampled goes away entirely, and is usually sampled again right away
+				spec = "rowis:" + prevRow
+				forceRow = rr.Intn(10) < 7
+				forceCol = rr.Intn(2) == 0
+			case x < 11:
+				spec = "colis:" + prevCol
+				forceCol = rr.Intn(10) < 7
+				forceRow = rr.Intn(2) == 0
+			case x < 13:
+				spec = "all"
+				forceRow, forceCol = rr.Intn(2) == 0, rr.Intn(2) == 0
+			case x < 16:
+				spec = []string{"col", "row", "cell", "col3", "row3"}[rr.Intn(5)] + ":" + strconv.Itoa(rr.Intn(1000))
+				forceRow = rr.Intn(2) == 0
+			default:
+				spec = denseTrims[rr.Intn(len(denseTrims))]
+			}
+			samples = append(samples, trimMark+spec)
+		}
 		col := cols[rr.Intn(len(cols))]
 		row := rows[zipf(rr, len(rows))]
+		if forceCol {
+			col = prevCol
+		}
+		if forceRow {
+			row = prevRow
+		}
+		forceCol, forceRow = false, false
+		var smp string
 		switch {
 		case cs.Direct:
-			samples[i] = col + directSep + row + directSep + directInc(rr)
+			smp = col + directSep + row + directSep + directInc(rr)
 		case rr.Intn(12) == 0:
-			samples[i] = col
+			smp = col // no row part at all: row ""
+			row = ""
 		default:
 			if inc, ok := incString(rr); ok {
-				samples[i] = col + delim + row + delim + inc
+				smp = col + delim + row + delim + inc
 			} else {
-				samples[i] = col + delim + row
+				smp = col + delim + row
 			}
 		}
+		samples = append(samples, smp)
+		prevCol, prevRow = col, row
 	}
 	// trim predicates
 	nt := rr.Range(1, 3)
